@@ -1,6 +1,8 @@
 package main
 
 import (
+	"fmt"
+	"os"
 	"go/types"
 
 	"golang.org/x/tools/go/ssa"
@@ -286,6 +288,15 @@ func (e *Engine) switchThread(st *State, blocked bool) bool {
 		}
 	}
 	if next < 0 || (blocked && st.stuck > live) {
+		if w := st.syncInt["quiesceWait"]; w > 0 && !st.threads[w-1].done {
+			// everyone else is blocked or done: the goroutine waiting in vpQuiesce proceeds
+			st.syncInt["quiesceWait"] = 0
+			st.syncInt["quiesced"] = w
+			st.stuck = 0
+			st.cur = w - 1
+			st.fr = st.threads[w-1].fr
+			return true
+		}
 		e.Blocked++
 		if st.syncInt["mustBlock"] == 1 || st.syncInt["blockedOK"] == 1 {
 			e.Discharged++
@@ -294,12 +305,50 @@ func (e *Engine) switchThread(st *State, blocked bool) bool {
 		if st.threads[0].done {
 			return false
 		}
-		e.violation(st, "DEADLOCK", "all live goroutines blocked before the harness finished")
+		where := ""
+		for ti, t := range st.threads {
+			if t.done {
+				continue
+			}
+			fr := t.fr
+			if ti == st.cur {
+				fr = st.fr
+			}
+			if fr == nil || fr.fn == nil || fr.block == nil {
+				where += fmt.Sprintf(" [g%d: native]", ti)
+				continue
+			}
+			ip := fr.ip
+			if ip >= len(fr.block.Instrs) {
+				ip = len(fr.block.Instrs) - 1
+			}
+			where += fmt.Sprintf(" [g%d: %s at %s]", ti, fr.fn.Name(), e.pos(fr.block.Instrs[ip].Pos()))
+		}
+		e.violation(st, "DEADLOCK", "all live goroutines blocked before the harness finished:"+where)
 		return false
+	}
+	if traceSched {
+		st.trace = append(st.trace, fmt.Sprintf("g%d%s->g%d", st.cur, map[bool]string{true: "(blocked " + e.framePos(st.fr) + ")", false: ""}[blocked], next))
 	}
 	st.cur = next
 	st.fr = st.threads[next].fr
 	return true
+}
+
+var traceSched = os.Getenv("VERIF_TRACE") != ""
+
+func (e *Engine) framePos(fr *Frame) string {
+	if fr == nil || fr.fn == nil || fr.block == nil {
+		return "native"
+	}
+	ip := fr.ip
+	if ip >= len(fr.block.Instrs) {
+		ip = len(fr.block.Instrs) - 1
+	}
+	if ip < 0 {
+		ip = 0
+	}
+	return fr.fn.Name() + "@" + e.pos(fr.block.Instrs[ip].Pos())
 }
 
 var _ = types.Typ
